@@ -4,6 +4,9 @@
 //              permits were released (watchdog), final count = initial + released - acquired
 //   timed    : release clearly before the deadline (margin >= 50x) => true and consumed; timeout =>
 //              false and count untouched; release before the call; deadline in the past
+//   mixed    : blocked timed acquirers + try_acquire spinners + permits released one batch at a time
+//              (counting release(1) / release(n>1), binary): ledger at every instant, conservation and
+//              non-negative count after quiescence
 //   sliding  : wait(u) returns only if u - maxd <= lower, try_wait exact when quiescent, all waiters
 //              finish once the signalled lower limit covers them (watchdog)
 //   syncwait : sync_wait (binary semaphore instance) returns exactly once with the value
@@ -335,6 +338,197 @@ static void mode_timed(int nb)
     }
 }
 
+// ------------------------------------------------------------------------------------ mixed
+// "A timed or non-blocking acquire returns true exactly when it consumed a permit" with all three kinds
+// of acquirer competing for the SAME permit: T tasks blocked in try_acquire_for(D) (D = 50..90 ms, the
+// releases come within the first few ms; pika tasks only — on plain OS threads this deadlocks, F14),
+// S tasks spinning on the non-blocking try_acquire() (each up to a quota), and a releaser that hands out
+// the permits one batch at a time (counting: release(1) / release(n>1); binary: release(1) only while the
+// counter is known to be 0).  Every release pops timed waiters from the queue, but a spinner may take the
+// permit before the popped waiter looks at the counter again: that waiter must then NOT report success.
+// Monitors (ledger, independent of the model): successful acquisitions <= initial + released at every
+// instant; after quiescence successful + leftover == initial + released (leftover drained through
+// try_acquire); then release(1) makes exactly one try_acquire succeed (a negative internal count would
+// swallow it).  M cases run concurrently per batch (a timed acquire on a task lasts until its deadline).
+struct ISem
+{
+    virtual ~ISem() = default;
+    virtual bool try_acquire() = 0;
+    virtual bool try_acquire_for(std::chrono::milliseconds) = 0;
+    virtual void release(std::ptrdiff_t) = 0;
+};
+template <typename S>
+struct SemBox final : ISem
+{
+    S s;
+    explicit SemBox(std::ptrdiff_t v) : s(v) {}
+    bool try_acquire() override { return s.try_acquire(); }
+    bool try_acquire_for(std::chrono::milliseconds d) override { return s.try_acquire_for(d); }
+    void release(std::ptrdiff_t n) override { s.release(n); }
+};
+struct MixCase
+{
+    int kind = 0;    // 0 counting, single permits; 1 counting, release(n>1); 2 binary
+    std::unique_ptr<ISem> sem;
+    int init = 0, T = 0, S = 0, D_ms = 0;
+    std::vector<int> rel_n, quota, delay_us;
+    std::atomic<long> rel{0}, acq{0};
+    std::atomic<int> entered{0}, timed_true{0}, timed_false{0}, spin_got{0}, rounds_done{0};
+    std::atomic<bool> stop{false}, bad{false};
+    std::string baddetail, desc;
+    long leftover = -1;
+    bool probe1 = false, probe2 = false;
+    void on_acquire(char const* who)
+    {
+        long a = acq.fetch_add(1) + 1;
+        long r = rel.load();
+        if (a > init + r && !bad.exchange(true))
+            baddetail = std::string(who) + " returned true as acquisition #" + std::to_string(a) + " while initial=" + std::to_string(init) +
+                " + released=" + std::to_string(r) + " permits existed";
+    }
+};
+static char const* mix_kind(int k) { return k == 0 ? "counting" : k == 1 ? "counting_multi" : "binary"; }
+
+static void mode_mixed(int nb)
+{
+    Rng rng(g_seed);
+    int const M = 8;
+    for (int b = 0; b < nb; ++b)
+    {
+        std::vector<std::unique_ptr<MixCase>> cs;
+        std::atomic<int> fin_a{0}, fin_s{0}, fin_c{0};
+        int expect_a = 0, expect_s = 0, maxD = 0;
+        for (int i = 0; i < M; ++i)
+        {
+            cs.push_back(std::make_unique<MixCase>());
+            MixCase* c = cs.back().get();
+            c->kind = (int) rng.below(3);
+            c->init = c->kind == 2 ? (int) rng.below(2) : (int) rng.below(3);
+            c->T = 1 + (int) rng.below(3);
+            c->S = 1 + (int) rng.below(2);
+            c->D_ms = 50 + (int) rng.below(41);
+            maxD = c->D_ms > maxD ? c->D_ms : maxD;
+            int R = 1 + (int) rng.below(3);
+            int total = c->init;
+            for (int k = 0; k < R; ++k)
+            {
+                c->rel_n.push_back(c->kind == 1 ? 2 + (int) rng.below(2) : 1);
+                total += c->rel_n.back();
+            }
+            // spinner quotas: mostly enough to take everything, sometimes fewer (the timed waiters then get the rest)
+            for (int k = 0; k < c->S; ++k) c->quota.push_back(rng.chance(2, 3) ? total : (int) rng.below((std::uint64_t) total + 1));
+            for (int k = 0; k < c->T; ++k) c->delay_us.push_back(rng.chance(1, 4) ? 500 + (int) rng.below(2500) : 0);
+            if (c->kind == 2) c->sem = std::make_unique<SemBox<pika::binary_semaphore<>>>(c->init);
+            else c->sem = std::make_unique<SemBox<pika::counting_semaphore<>>>(c->init);
+            c->desc = std::string(mix_kind(c->kind)) + " init=" + std::to_string(c->init) + " timed=" + std::to_string(c->T) + "x try_acquire_for(" +
+                std::to_string(c->D_ms) + "ms) spinners=" + std::to_string(c->S) + " quota=";
+            for (int q : c->quota) c->desc += std::to_string(q) + ",";
+            c->desc += " releases=";
+            for (int n : c->rel_n) c->desc += std::to_string(n) + ",";
+            int early = 0;
+            for (int k = 0; k < c->T; ++k)
+            {
+                if (c->delay_us[k] == 0) ++early;
+                spawn([c, k, &fin_a] {
+                    if (c->delay_us[k]) task_sleep(std::chrono::microseconds(c->delay_us[k]));
+                    c->entered.fetch_add(1);
+                    bool r = c->sem->try_acquire_for(std::chrono::milliseconds(c->D_ms));
+                    if (r) { c->on_acquire("try_acquire_for"); c->timed_true.fetch_add(1); }
+                    else c->timed_false.fetch_add(1);
+                    fin_a.fetch_add(1);
+                });
+            }
+            for (int k = 0; k < c->S; ++k)
+                spawn([c, k, &fin_s] {
+                    int got = 0;
+                    while (!c->stop.load())
+                    {
+                        if (got < c->quota[k] && c->sem->try_acquire())
+                        {
+                            c->on_acquire("try_acquire");
+                            ++got;
+                            c->spin_got.fetch_add(1);
+                        }
+                        pika::this_thread::yield();
+                    }
+                    fin_s.fetch_add(1);
+                });
+            spawn([c, early, &fin_a] {
+                auto t0 = clk::now();
+                while (c->entered.load() < early && clk::now() - t0 < 5s) pika::this_thread::yield();
+                task_sleep(std::chrono::microseconds(300));    // the early timed acquirers are queued by now (not required for soundness)
+                for (int n : c->rel_n)
+                {
+                    c->rel.fetch_add(n);    // ledger first: an acquirer that got this permit sees it counted
+                    c->sem->release(n);
+                    c->rounds_done.fetch_add(1);
+                    // one batch at a time: wait (a little) until everything handed out so far was taken
+                    auto t1 = clk::now();
+                    auto lim = std::chrono::milliseconds(c->kind == 2 ? 5 : 2);
+                    while (c->acq.load() < c->init + c->rel.load() && clk::now() - t1 < lim) pika::this_thread::yield();
+                    // binary: release() requires counter == 0, known only when every permit was reported taken
+                    if (c->kind == 2 && c->acq.load() < c->init + c->rel.load()) break;
+                }
+                fin_a.fetch_add(1);
+            });
+            expect_a += c->T + 1;
+            expect_s += c->S;
+        }
+        auto abandon = [&](char const* what, std::string const& d) {
+            for (int i = 0; i < M; ++i) kase(b * M + i, cs[i]->desc);
+            hit(what, "batch=" + std::to_string(b) + " " + d);
+            done_exit(true);
+        };
+        if (!wait_for(fin_a, expect_a, 15 + maxD / 1000))
+        {
+            std::string d = "finished=" + std::to_string(fin_a.load()) + "/" + std::to_string(expect_a) + " (timed acquirers / releasers still not back 15 s after every deadline):";
+            for (int i = 0; i < M; ++i)
+                if (cs[i]->timed_true + cs[i]->timed_false < cs[i]->T || cs[i]->rounds_done.load() == 0) d += " [" + cs[i]->desc + "]";
+            abandon("mixed:hang", d);
+        }
+        for (auto& c : cs) c->stop = true;
+        if (!wait_for(fin_s, expect_s, 15)) abandon("mixed:hang", "try_acquire spinners did not stop");
+        for (int i = 0; i < M; ++i)
+        {
+            MixCase* c = cs[i].get();
+            spawn([c, &fin_c] {
+                long lim = c->init + c->rel.load() + 5, d = 0;
+                while (d < lim && c->sem->try_acquire()) ++d;
+                c->leftover = d;
+                c->sem->release(1);
+                c->probe1 = c->sem->try_acquire();
+                c->probe2 = c->sem->try_acquire();
+                fin_c.fetch_add(1);
+            });
+        }
+        if (!wait_for(fin_c, M, 15)) abandon("mixed:hang", "quiescent drain/probe did not return");
+        for (int i = 0; i < M; ++i)
+        {
+            MixCase* c = cs[i].get();
+            int id = b * M + i;
+            long have = c->init + c->rel.load(), a = c->acq.load();
+            std::string obs = " observed: released=" + std::to_string(c->rel.load()) + " timed_true=" + std::to_string(c->timed_true.load()) +
+                " timed_false=" + std::to_string(c->timed_false.load()) + " try_acquire_true=" + std::to_string(c->spin_got.load()) +
+                " leftover=" + std::to_string(c->leftover) + " probe=" + std::to_string((int) c->probe1) + "," + std::to_string((int) c->probe2);
+            kase(id, c->desc + obs);
+            std::string pre = std::string("mixed:") + mix_kind(c->kind) + ":";
+            std::string head = "case=" + std::to_string(id) + " " + c->desc + obs + " — ";
+            if (c->bad) hit((pre + "acquired_exceeds_released").c_str(), head + c->baddetail);
+            if (a + c->leftover > have)
+                hit((pre + "permit_invented").c_str(), head + "successful acquisitions " + std::to_string(a) + " + leftover " + std::to_string(c->leftover) +
+                        " > initial + released " + std::to_string(have) + " (an acquire returned true without consuming a permit)");
+            else if (a + c->leftover < have)
+                hit((pre + "permit_lost").c_str(), head + "successful acquisitions " + std::to_string(a) + " + leftover " + std::to_string(c->leftover) +
+                        " < initial + released " + std::to_string(have) + " (a permit was consumed by an acquire that returned false, or lost)");
+            if (!c->probe1)
+                hit((pre + "count_negative").c_str(), head + "after draining, release(1) did not make try_acquire succeed: the internal count was negative");
+            else if (c->probe2)
+                hit((pre + "count_too_high").c_str(), head + "after draining and release(1), two try_acquire calls succeeded");
+        }
+        if (g_hits >= 12) break;    // enough evidence: every further batch would repeat it
+    }
+}
+
 // ------------------------------------------------------------------------------------ sliding
 static void mode_sliding(int n)
 {
@@ -537,10 +731,11 @@ int main(int argc, char** argv)
     char* av[] = {argv[0], (char*) "--pika:threads=4", nullptr};
     int ac = 2;
     pika::start(ac, av);
-    if (g_mode == "ledger" || g_mode == "sliding" || g_mode == "syncwait")
+    if (g_mode == "ledger" || g_mode == "sliding" || g_mode == "syncwait" || g_mode == "mixed")
         pika::verif::hook.store(&perturb, std::memory_order_release);
     if (g_mode == "ledger") mode_ledger(n);
     else if (g_mode == "timed") mode_timed(n);
+    else if (g_mode == "mixed") mode_mixed(n);
     else if (g_mode == "sliding") mode_sliding(n);
     else if (g_mode == "syncwait") mode_syncwait(n);
     else { std::printf("HARNESS-ERROR unknown mode\n"); return 3; }
